@@ -113,6 +113,11 @@ type Config struct {
 	// a key that is only part of (target, length) is then wrong for the judged call — always in the unsound direction,
 	// because the judged call is the one that needs more zeros.
 	Before *Config `json:"before,omitempty"`
+	// StepMs > 0: every scheduler step costs that many milliseconds of simulated time instead of 50 microseconds, so a
+	// run of a thousand steps is minutes or hours of mining on the clock Mine sees (simulated time costs nothing): code
+	// that behaves differently after a long search measured in TIME rather than in batches is reached this way.
+	// Only in runs without a context deadline.
+	StepMs int `json:"step_ms,omitempty"`
 	// CrowdTargets / CrowdLenStep (crowd runs, optional): call i of the crowd has its own target CrowdTargets[i] and a
 	// message i*CrowdLenStep bytes longer than call 0. Call 0's target is attainable (the oracle plants hashes with
 	// exactly the zeros call 0 needs in every worker's early batches), the other calls need more zeros than any hash of
@@ -648,6 +653,9 @@ func GenC13(seed uint64, tier string) *Config {
 		}
 	}
 	c.Fault = genFault(r, true)
+	if r.IntN(12) == 0 {
+		c.StepMs = pick(r, 5, 200, 200, 5000, 60000)
+	}
 	if c.Fault.Kind == "none" && c.MustFind && r.IntN(2) == 0 {
 		c.Background = true
 		c.NeverDone = pick(r, "", "", "todo", "value", "withoutcancel", "own")
